@@ -29,7 +29,7 @@ from typing import Any, Dict, List, Optional, Sequence, Set, Tuple
 from engine.srcmatch import U
 from engine.abseval import OTHER, ErrorValue, Joined, Machine, Outcome, explore, mentioned_chars
 from engine.fold import EnumMember, Folder
-from engine.model import AnalysisError, Program, dotted, walk_no_nested
+from engine.model import inline_tail_helpers, AnalysisError, Program, dotted, walk_no_nested
 from engine.pyx import PyxFile
 
 LEVEL = 'other'
@@ -229,6 +229,9 @@ def run(ctx: Any, prog: Program) -> None:
     tok_methods = tk.methods('Tokenizer')
     # ---- K1 --------------------------------------------------------------------------------------
     allowed_full = {'__init__', '_next_char'}
+    # the character source may be split into private helpers that only it calls (`return self._advance_chunk()`): they are part of it
+    nc_view, nc_helpers = inline_tail_helpers(tok_methods['_next_char'], tok_methods) if '_next_char' in tok_methods else (None, [])
+    allowed_full |= set(nc_helpers)
     for name, fn in tok_methods.items():
         for n in ast.walk(fn):
             if isinstance(n, ast.Attribute) and isinstance(n.value, ast.Name) and n.value.id == 'self':
@@ -243,7 +246,7 @@ def run(ctx: Any, prog: Program) -> None:
                               'self._char_index may only be rewound by exactly one (`self._char_index -= 1`) outside _next_char',
                               text=f'_char_index use in {name}: ' + U(st)[:60])
     # _next_char itself: the only subscript of the chunk uses self._char_index after += 1; refill sets index 0 and returns chunk[0]
-    nc = tok_methods.get('_next_char')
+    nc = nc_view
     if nc is None:
         raise AnalysisError('Tokenizer._next_char not found')
     first = [s for s in nc.body if not (isinstance(s, ast.Expr) and isinstance(s.value, ast.Constant))][0]
